@@ -7,6 +7,7 @@ import DesyncModel.Tables.Claim
 import DesyncModel.Lemmas
 import DesyncModel.Setters
 import DesyncModel.Inv.Holder
+import DesyncModel.Inv.SigReach
 
 namespace Desync.C07
 open Desync Gen
@@ -110,5 +111,31 @@ theorem wfp_preceded_by_draining (s s' : State) (a f l q : Nat) (act : Act) (o :
   refine ⟨{ fu with waker := some (.task act.thread), draining := true }, by simp [State.setFut, hlt], rfl, rfl, ?_⟩
   have : a < s.acts.length := lt_of_getElem?_some ha
   simp [pcAt_goto, this]
+
+/-- **The result of an operation is handed to its future at most once** (safety half of "exactly once"), in every reachable
+state, for every program, pool size and interleaving: the activity that stands at the signal step of a job finds the job
+unsignalled (`sig` is a ghost flag raised by that very step), because a signalled job is never put back into a queue and
+whoever has it in hand is past the signal step (`SigInv`, inductive over all program counters: Inv/Sig, SigStep, SigReach). -/
+theorem result_signalled_at_most_once {s : State} (hr : Reachable s) {a j : Nat} {c : Ctx} {k : Pc} {jb : Job}
+    (hpc : s.pcAt a = .jobSignal j c k) (hj : s.jobs[j]? = some jb) : jb.sig = false :=
+  signal_at_most_once hr hpc hj
+
+/-- the signal step is the step that raises the flag and stores `ok` in the job's future (so the store happens at most once per job) -/
+theorem signal_step_raises_flag (s s' : State) (a j r : Nat) (c : Ctx) (k : Pc) (act : Act) (o : Obs) (jb : Job) (fu : Fut)
+    (ha : s.acts[a]? = some act) (hc : act.child = none) (hpc : act.pc = .jobSignal j c k)
+    (hj : s.jobs[j]? = some jb) (hr : jb.kind.res = some r) (hf : s.futs[r]? = some fu)
+    (hstep : stepAct s a = some (s', o)) :
+    ∃ jb', s'.jobs[j]? = some jb' ∧ jb'.sig = true ∧ jb'.ended = true := by
+  unfold stepAct at hstep
+  simp only [ha, hc, hpc, hj, hr, hf, Option.isSome_none, Bool.false_eq_true, ↓reduceIte] at hstep
+  have hlt : j < s.jobs.length := lt_of_getElem?_some hj
+  split at hstep <;>
+  · obtain ⟨rfl, _⟩ := Prod.mk.inj (Option.some.inj hstep)
+    exact ⟨{ jb with ended := true, sig := true }, by simp [State.setJob, hlt], rfl, rfl⟩
+
+/-- a job that has been signalled sits in no queue, so no runner can take it again -/
+theorem signalled_job_is_never_requeued {s : State} (hr : Reachable s) {q j : Nat} {v : JobQ} {jb : Job}
+    (hv : s.qs[q]? = some v) (hm : j ∈ v.jobs) (hj : s.jobs[j]? = some jb) : jb.sig = false :=
+  signalled_job_not_queued hr hv hm hj
 
 end Desync.C07
